@@ -57,8 +57,9 @@ type Ctx struct {
 
 	Violations []Violation
 	Known      []string // KNOWN-FINDING lines printed
-	kf         []KnownFinding
-	budget     int
+	kf          []KnownFinding
+	budget      int
+	brokenFacts []brokenFact
 }
 
 func NewCtx(id, tier string, seed int64) *Ctx {
@@ -379,3 +380,97 @@ func SortedKeys[V any](m map[string]V) []string {
 	sort.Strings(ks)
 	return ks
 }
+
+// ---------- regenerated facts ----------
+
+var leanStrRe = regexp.MustCompile(`^\s*"((?:[^"\\]|\\.)*)",?\s*$`)
+
+func parseLeanFacts(path string) map[string][]string {
+	out := map[string][]string{}
+	b, err := os.ReadFile(path)
+	if err != nil {
+		return out
+	}
+	cur := ""
+	for _, line := range strings.Split(string(b), "\n") {
+		if strings.HasPrefix(line, "def ") {
+			cur = strings.Fields(line)[1]
+			out[cur] = []string{}
+			continue
+		}
+		if m := leanStrRe.FindStringSubmatch(line); m != nil && cur != "" {
+			out[cur] = append(out[cur], m[1])
+		}
+	}
+	return out
+}
+
+// Facts regenerates lean/GJS/Facts.lean from /repo (rewritten only when it changed) and builds the
+// `rfl` tie of each listed group. A broken tie is recorded and reported by FactsVerdict after the
+// property's streams have run (so that the search for a failing input has happened first).
+func (c *Ctx) Facts(extract func() (string, error), groups ...string) {
+	src, err := extract()
+	if err != nil {
+		c.Fail("facts", "fact extraction failed: "+err.Error(), map[string]any{"broken": "fact extractor"}, true)
+		return
+	}
+	path := filepath.Join(leanDir(), "GJS", "Facts.lean")
+	old, _ := os.ReadFile(path)
+	if string(old) != src {
+		if err := os.WriteFile(path, []byte(src), 0o644); err != nil {
+			c.Fail("facts", "cannot write Facts.lean: "+err.Error(), nil, true)
+			return
+		}
+	}
+	actual := parseLeanFacts(path)
+	expected := parseLeanFacts(filepath.Join(leanDir(), "GJS", "FactsExpected.lean"))
+	for _, g := range groups {
+		name := "GJS.FactsTie." + g
+		mod := "GJS.FactsTie." + strings.ToUpper(g[:1]) + g[1:]
+		c.Obligations = append(c.Obligations, name)
+		out, err := runIn(leanDir(), 20*time.Minute, "lake", "build", mod)
+		if err == nil {
+			c.Discharged = append(c.Discharged, name)
+			c.Axioms[name] = []string{}
+			continue
+		}
+		// describe the difference
+		var added, removed []string
+		exp := map[string]int{}
+		for _, s := range expected[g] {
+			exp[s]++
+		}
+		for _, s := range actual[g] {
+			if exp[s] > 0 {
+				exp[s]--
+			} else {
+				added = append(added, s)
+			}
+		}
+		for s, n := range exp {
+			for i := 0; i < n; i++ {
+				removed = append(removed, s)
+			}
+		}
+		sort.Strings(removed)
+		c.brokenFacts = append(c.brokenFacts, brokenFact{Group: g, Theorem: name, Added: added, Removed: removed, Output: tail(out, 1500)})
+	}
+}
+
+type brokenFact struct {
+	Group   string   `json:"group"`
+	Theorem string   `json:"theorem"`
+	Added   []string `json:"now_in_source"`
+	Removed []string `json:"no_longer_in_source"`
+	Output  string   `json:"lake_output"`
+}
+
+// FactsVerdict reports broken fact ties. haveInput: a concrete failing input was already reported in this run.
+func (c *Ctx) FactsVerdict(haveInput bool) {
+	for _, b := range c.brokenFacts {
+		c.Fail("facts", fmt.Sprintf("the source no longer matches the facts the model relies on (%s): now %v, no longer %v", b.Group, b.Added, b.Removed),
+			map[string]any{"broken": b.Theorem, "fact_group": b.Group, "now_in_source": b.Added, "no_longer_in_source": b.Removed}, !haveInput)
+	}
+}
+
+func (c *Ctx) FactsBroken() bool { return len(c.brokenFacts) > 0 }
